@@ -580,6 +580,10 @@ func ElidedExplicit(t Tier) []*Grammar {
 		func() *g.Node { return g.Grp(capMark(g.Ref("Ident")), '*') },
 		func() *g.Node { return capMark(g.Neg(g.Lit("a"))) },
 		func() *g.Node { return capMark(g.LitT("#", "Comment")) },
+		func() *g.Node { return capMark(g.Alt(g.Seq(g.Ref("Comment"), g.Lit("a")), g.Ref("Ident"))) },
+		func() *g.Node {
+			return capMark(g.Alt(g.Seq(g.Ref("Space"), g.Lit("b")), g.Seq(g.Ref("Ident"), g.Grp(g.Ref("Ident"), '?'))))
+		},
 	}
 	memo := map[int][]func() *g.Node{}
 	var ts []func() *g.Node
